@@ -54,7 +54,7 @@ def run_case(job):
         load_emis_config(cfgd)
         fuel = fuel_obj(fuelname)
         pm = model(case['flows'], case['apu'], aclass)
-        traj = synthetic_traj(case['burn'], case['nc'], case['nd'], carrier=case.get('carrier', 'container'))
+        traj = synthetic_traj(case['burn'], case['nc'], case['nd'], carrier=case.get('carrier', 'container'), profile=case.get('profile', 'high'))
         try:
             em = compute_emissions(pm, fuel, traj)
         except Exception as e:
@@ -130,7 +130,7 @@ def run(ctx: Ctx):
         'chosen by seed (thorough: 5 option sets, 4 classes, 2 fuels round-robin over all); 256 sessions of two inventories under every ordered pair of CO2/H2O/SOx/mode switch settings, each session in a fresh process; non-trivial = zero-burn segment, empty or total window, or lto mode'
     )
     ctx.assumptions += [
-        'altitude / airspeed / fuel-flow profiles come from a fixed lattice incl. a stratospheric point and zero / above-take-off fuel flows',
+        'altitude / airspeed / fuel-flow profiles come from two fixed lattices - one climbing through the stratosphere, one staying below 2.5 km - incl. zero / above-take-off fuel flows',
         'emission index values themselves are bound from the implementation (their correctness is C12)',
         'GSE fuel = nominal CO2 of the aircraft class / EI_CO2 is supplied by the harness',
     ]
@@ -184,7 +184,7 @@ def run(ctx: Ctx):
         c = job[0]
         nt = 0 in c['burn'][1:] or c['mode'] == 'lto' or c['nc'] + c['nd'] in (0, c['n'])
         ctx.case_done({'case': c, 'opt': job[1], 'aclass': job[2]}, nontrivial=nt)
-        ctx.sample({'carrier': c.get('carrier'), 'burn_g': c['burn'], 'nc': c['nc'], 'nd': c['nd'], 'mode': c['mode'], 'apu': c['apu'], 'gse': c['gse'], 'options': OPTION_SETS[job[1]], 'class': job[2]}, limit=3)
+        ctx.sample({'carrier': c.get('carrier'), 'altitude_profile': c.get('profile'), 'burn_g': c['burn'], 'nc': c['nc'], 'nd': c['nd'], 'mode': c['mode'], 'apu': c['apu'], 'gse': c['gse'], 'options': OPTION_SETS[job[1]], 'class': job[2]}, limit=3)
         seen = set()
         for key, desc in devs:
             if key == 'machinery':
